@@ -68,7 +68,7 @@ def rule_store(ctx):
         seen = b.reach([0], avoid=ctx.both(inf, lambda n: n in {c.bb for c in rm_ok}))
         escapes = [r for r in b.returns() if r in seen]
         R.ob('STORE-reset-edges', b.path, not escapes and bool(rm_ok), 'reset removes all outgoing edges of the node it was given, on every path' if not escapes and rm_ok
-             else 'reset can return without removing the outgoing edges of its node', ctx.where(b), props=('C06', 'C08', 'C01', 'C20'))
+             else 'reset can return without removing the outgoing edges of its node', ctx.where(b), props=('C06', 'C08', 'C01', 'C02', 'C19', 'C20'))
         clears = set()
         for (bb, si, place, rv, ln) in b.stores:
             po = b.orig_place(place)
@@ -592,7 +592,7 @@ def resolve_bottom_up(ctx):
         roles.note(name, cands[0].path if len(cands) == 1 else 'UNRESOLVED %s' % [c.path for c in cands])
     one('q_add', [b for b in qm if b.find_calls(lambda c: c.qname == 'std::vec::Vec::push')])
     one('q_sort', [b for b in qm if b.find_calls(lambda c: c.qname in SORT_FNS)])
-    removers = [b for b in qm if b.find_calls(lambda c: c.qname in ('std::vec::Vec::pop', 'std::vec::Vec::remove', 'std::vec::Vec::swap_remove'))]
+    removers = [b for b in qm if b.find_calls(lambda c: c.qname in ('std::vec::Vec::pop', 'std::vec::Vec::remove', 'std::vec::Vec::swap_remove', 'std::vec::Vec::retain', 'std::vec::Vec::drain', 'std::vec::Vec::truncate'))]
     one('q_pop', [b for b in removers if b.argc == 2])
     one('q_pop_least', [b for b in removers if b.argc == 3])
     bu = [b for b in F.bodies.values() if b.crate == 'pie' and not b.is_test_code() and b.impl_self and 'BottomUpContext' in b.impl_self and b.kind == 'AssocFn']
@@ -1083,8 +1083,23 @@ def rule_error_discipline(ctx):
                  else ('the checker\'s Result is consumed by %s (error swallowed or build aborted)' % users[0].qname if users else 'the checker\'s Result is dropped'),
                  ctx.where(b, s.bb), props=('C18',))
     R.floor('ERR-discipline', 'call sites that can carry a checker error', n, 5, props=('C18',))
-    # the public accessor iterates the same vector the arms push to
+    # who may shrink the error list: nobody (errors of a session are only ever appended and read)
     roles = ctx.roles
+    READ_OK = {'push', 'iter', 'len', 'is_empty', 'as_slice', 'deref', 'first', 'last', 'get', 'default', 'new', 'with_capacity', 'reserve', 'extend', 'append', 'fmt'}
+    for b in F.bodies.values():
+        if b.crate != 'pie' or b.is_test_code():
+            continue
+        for c in b.calls.values():
+            if b.blocks[c.bb]['cleanup'] or not c.args or c.args[0][0] not in ('c', 'm'):
+                continue
+            if ctx.has_field(b.orig_operand(c.args[0]), roles.f_errors) and type_head(c.impl_self or '') in ('std::vec::Vec', '[T]') and c.name not in READ_OK:
+                R.ob('ERR-who-mutates', b.path + '#' + c.name, False, 'the session\'s dependency-check error list is modified by %s: errors reported earlier in the session are lost' % c.qname, ctx.where(b, c.bb), props=('C18',))
+        for (bb, si, pl, rv, ln) in b.stores:
+            names = [p[2] for p in pl[1] if isinstance(p, tuple) and p[0] == 'f']
+            if names and names[-1] == roles.f_errors:
+                R.ob('ERR-who-mutates', b.path + '#assign', False, 'the session\'s dependency-check error list is re-assigned: errors reported earlier in the session are lost', '%s:%s %s' % (b.file, ln, b.path), props=('C18',))
+    R.ob('ERR-who-mutates', 'summary', True, 'the error list is only appended to and read', '', props=('C18',))
+    # the public accessor iterates the same vector the arms push to
     acc = [b for b in F.bodies.values() if b.crate == 'pie' and b.name == 'dependency_check_errors' and b.impl_self and type_head(b.impl_self) == roles.session_adt]
     good = False
     for b in acc:
